@@ -61,7 +61,9 @@ PoolWakeState::PoolWakeState(int32_t numThreads, int32_t groupSize, int32_t bran
 PoolWakeState::~PoolWakeState() = default;
 
 void PoolWakeState::wakeRange(int32_t count) {
+  DISPENSO_VERIF_HOOK("wake.call.range", this, count, 0);
   if (count <= 0) {
+    DISPENSO_VERIF_HOOK("wake.ret.range", this, 0, 0);
     return;
   }
   // For each group in [0, count), bump the group's epoch so spinning
@@ -98,10 +100,13 @@ void PoolWakeState::wakeRange(int32_t count) {
       waiter.bumpAndWakeN(numSleepers, groupSize_);
     }
   }
+  DISPENSO_VERIF_HOOK("wake.ret.range", this, 0, 0);
 }
 
 int32_t PoolWakeState::claimAndWakeOne() {
+  DISPENSO_VERIF_HOOK("wake.call.claim", this, 0, 0);
   if (totalSleeping_.load(std::memory_order_relaxed) <= 0) {
+    DISPENSO_VERIF_HOOK("wake.ret.claim", this, -1, 0);
     return -1;
   }
   int32_t g = nextWakeGroup_.load(std::memory_order_relaxed);
@@ -118,17 +123,21 @@ int32_t PoolWakeState::claimAndWakeOne() {
         // thread's bit is cleared so other callers see one fewer sleeper).
         waiterFor(threadIdx).bumpAndWake();
         nextWakeGroup_.store(nextGroupTable_[static_cast<size_t>(g)], std::memory_order_relaxed);
+        DISPENSO_VERIF_HOOK("wake.ret.claim", this, threadIdx, 0);
         return threadIdx;
       }
       mask &= mask - 1;
     }
     g = nextGroupTable_[static_cast<size_t>(g)];
   }
+  DISPENSO_VERIF_HOOK("wake.ret.claim", this, -1, 0);
   return -1;
 }
 
 bool PoolWakeState::cascadeWakeSeed(int32_t count) {
+  DISPENSO_VERIF_HOOK("wake.call.seed", this, count, 0);
   if (count <= 0) {
+    DISPENSO_VERIF_HOOK("wake.ret.seed", this, 0, 0);
     return false;
   }
   int32_t lastGroup = (count - 1) / groupSize_;
@@ -144,6 +153,7 @@ bool PoolWakeState::cascadeWakeSeed(int32_t count) {
     for (int32_t g = 0; g <= lastGroup; ++g) {
       waiterFor(g * groupSize_).bump();
     }
+    DISPENSO_VERIF_HOOK("wake.ret.seed", this, 0, 0);
     return false;
   }
 
@@ -169,6 +179,7 @@ bool PoolWakeState::cascadeWakeSeed(int32_t count) {
       waiter.bumpAndWakeN(numSleepers, groupSize_);
     }
   }
+  DISPENSO_VERIF_HOOK("wake.ret.seed", this, 1, 0);
   return true;
 }
 
